@@ -128,7 +128,15 @@ def body_projection(S, spec):
     try:
         with warnings.catch_warnings():
             warnings.simplefilter("ignore")
-            x = cls.from_dense(D, [list(l) for l in labels], duals, charge=q, invalid_sectors=mode, **kw)
+            maps = [list(l) for l in labels]
+            if spec.get("dict_maps"):
+                # the documented type: a dict position -> charge, here inserted in a scrambled order
+                maps = []
+                for ax, l in enumerate(labels):
+                    order_ = list(range(len(l)))
+                    order_ = order_[::-1] if ax % 2 == 0 else order_[1::2] + order_[0::2]
+                    maps.append({i: l[i] for i in order_})
+            x = cls.from_dense(D, maps, duals, charge=q, invalid_sectors=mode, **kw)
     except ValueError as e:
         if mode != "raise" or "non-zero" not in str(e):
             raise
@@ -182,8 +190,17 @@ def build_family(tier, seed):
         if sym != "Z2":
             two, one = two[: (3 if not thorough else 6)], one[:2]
         cases = []
-        for nd in (1, 2, 3):
+        for nd in (0, 1, 2, 3):
             tb = two + one if nd < 3 else two[:2] + one[:1]
+            if nd == 0:
+                # rank-0 arrays of every small total charge (only the identity charge has a sector)
+                for q in fam.UNIVERSE[sym][:3]:
+                    for pres in (((),), ()):
+                        if pres and q != gs.identity(sym):
+                            continue
+                        cases.append(dict(a=dict(sym=sym, generic=generic, fermionic=fermionic, indices=(), charge=q, present=pres, phases=(),
+                                                 oddpos=(("site", 3) if fermionic and gs.parity(sym, q) else None), name="a", exhaustive=True)))
+                continue
             cases += [dict(a=a) for a in fam.array_specs(sym, nd, tb, fermionic=fermionic, generic=generic, sparsity_threshold=3,
                                                          phases=fermionic, rng=rng, labels=(("site", 3),))]
         cases, ex = fam.thin(cases, 1200 if not thorough else 12000, seed)
@@ -215,6 +232,7 @@ def build_family(tier, seed):
         for p in pj:
             p["fermionic"] = fermionic
         pj, ex2 = fam.thin(pj, 2500 if not thorough else 25000, seed + 3)
+        pj = [dict(p_, dict_maps=(k_ % 3 == 0)) for k_, p_ in enumerate(pj)]
         groups[f"projection/{nm}"] = ([dict(body="body_projection", spec=c, validate=(i % 40 == 0), sample=(i % 900 == 0), seed=seed + i)
                                        for i, c in enumerate(pj)], ex2)
         small = [dict(p, invalid="raise") for p in pj if int(np.prod([len(l) for l in p["labels"]])) <= 4]
